@@ -46,6 +46,48 @@ def stale_backup_check():
     return out
 
 
+def rollback_entry_points_check():
+    """'when document synchronisation raises DocumentSyncConflict the destination document is exactly its pre-sync content': documents that
+    overlap partly (one key to add, one key in conflict), through Job.sync, Project.sync, sync_jobs and sync_projects"""
+    import logging
+    import signac
+    from signac.errors import DocumentSyncConflict
+    from signac.sync import sync_jobs, sync_projects
+    logging.disable(logging.CRITICAL)
+    out = []
+    for entry in ("Job.sync", "Project.sync", "sync_jobs", "sync_projects"):
+        for order in ("add-first", "conflict-first"):
+            with dir_scratch() as d:
+                os.makedirs(d + "/src")
+                os.makedirs(d + "/dst")
+                src, dst = signac.init_project(d + "/src"), signac.init_project(d + "/dst")
+                js, jd = src.open_job({"a": 1}).init(), dst.open_job({"a": 1}).init()
+                keys = (("a_new", "z_conf") if order == "add-first" else ("z_new", "a_conf"))
+                js.doc[keys[0]] = "added"
+                js.doc[keys[1]] = 2
+                jd.doc[keys[1]] = 1
+                jd.doc["dst_only"] = [1, 2]
+                fn = jd.fn("signac_job_document.json")
+                pre = json.loads(open(fn, "rb").read().decode())
+                call = {"Job.sync": lambda: jd.sync(js), "Project.sync": lambda: dst.sync(src), "sync_jobs": lambda: sync_jobs(js, jd), "sync_projects": lambda: sync_projects(src, dst)}[entry]
+                err = None
+                try:
+                    with contextlib.redirect_stdout(io.StringIO()):
+                        call()
+                except DocumentSyncConflict as e:
+                    err = e
+                except Exception as e:
+                    out.append((f"{entry}:{order}", f"{entry} over partly overlapping documents raised {type(e).__name__}: {e}"))
+                    continue
+                now = json.loads(open(fn, "rb").read().decode())
+                fresh = json.loads(json.dumps(signac.Project(dst.path).open_job(id=jd.id).doc()))
+                if err is None:
+                    out.append((f"{entry}:{order}", f"{entry} over documents with a conflicting key did not raise DocumentSyncConflict"))
+                elif now != pre or fresh != pre:
+                    out.append((f"{entry}:{order}", f"{entry} raised DocumentSyncConflict but the destination document is {now} (fresh handle: {fresh}); before the sync it was {pre}"))
+    return out
+
+
 def update_overwrites_all_check():
     """'DocSync.update overwrites all': also a value that differs from the destination's only as a JSON value (1 / true / 1.0), top level and
     nested, job and project level -- compared through the JSON text of the file"""
@@ -84,6 +126,11 @@ def run(tier="quick", seed=0):
     for level, msg in stale_backup_check():
         r["failures"].append({"key": "doc-rollback:stale-backup:" + level, "description": msg,
                               "script": script_header() + "sys.path.insert(0, '/verif')\nfrom pybound.c14 import stale_backup_check\nr = stale_backup_check()\nassert not r, r\n"})
+    for key, msg in rollback_entry_points_check():
+        r["failures"].append({"key": "doc-rollback:entry-point:" + key, "description": msg,
+                              "script": script_header() + "sys.path.insert(0, '/verif')\nfrom pybound.c14 import rollback_entry_points_check\nr = rollback_entry_points_check()\nassert not r, r\n"})
+    r["evaluations"] += 8
+    r["scope"] += "; roll-back of partly overlapping documents through Job.sync / Project.sync / sync_jobs / sync_projects"
     for level, msg in update_overwrites_all_check():
         r["failures"].append({"key": "doc-update:type-only-difference:" + level, "description": msg,
                               "script": script_header() + "sys.path.insert(0, '/verif')\nfrom pybound.c14 import update_overwrites_all_check\nr = update_overwrites_all_check()\nassert not r, r\n"})
